@@ -3,11 +3,11 @@ CHECKS = [
          text="Exhaustive decision (all strings) that the regex literals the IRI predicates are built from denote "
               "exactly the RFC 3987 IRI / irelative-ref / IRI-reference languages, that absolute/relative are "
               "disjoint, plus structural rules that every checked constructor goes through these predicates. "
-              "A panic audit of the resolution glue (resolve.rs, _wrapper.rs). "
+              "A panic audit of the resolution glue (resolve.rs, _wrapper.rs); resolve_into clears its result buffer first. "
               "Decides the language clause of the property and the panic-freedom of the glue, not the resolution algorithm.",
          note="Trusted: rustc const-eval/MIR, regex-syntax+regex-automata, the RFC transcription in rules/grammars.py, "
               "oxiri accepting every RFC 3987 reference (A9). Known findings (KNOWN_FINDINGS.txt): the typed resolve() unwraps a resolution "
-              "error that oxiri can report for accepted operands (two sites).",
+              "error that oxiri can report for accepted operands (two sites); the resolver's output for a *relative* base is wrapped unchecked although it is not always an IRI reference (two sites; A9 holds for absolute bases only).",
          technique="static: DFA product-automaton language equivalence on constants read from type-checked MIR + "
                    "dominator/who-calls rules"),
 ]
@@ -18,7 +18,7 @@ CHECKS.append(
               "space; the local-name check restricted to IRI text is included in PN_LOCAL-without-escapes; prefixes in "
               "PN_PREFIX. Structural rules: raw emission of a lexical form only behind those tests, `prefix:local` only "
               "from the checked lookup, and the lookup returns (prefix, iri[ns.len()..]) of one entry; write_iri emits only IRI "
-              "syntax (no position-dependent abbreviation); list_item's verdict depends on every class of arc. Decides the "
+              "syntax (no position-dependent abbreviation); list_item's verdict depends on every class of arc; the indentation string is validated against the Turtle WS characters only. Decides the "
               "abbreviation guards, not the isomorphism of the round trip.",
          note="Trusted: rustc const-eval/MIR, regex-syntax+regex-automata, Turtle/XSD transcriptions, rio_turtle as the "
               "reader. Not decided: list/inlining/annotation heuristics, rio formatters.",
@@ -27,9 +27,9 @@ CHECKS.append(
     dict(id="C16", level="other", engine="E1+E3",
          text="Every cycle of the resolved workspace call graph is an audited table entry whose class bounds depth by "
               "data nesting / log n / query size / a constant; unknown cycles, new recursive call sites in audited "
-              "cycles, loop-as-recursion patterns and iterators re-wrapped in a loop are violations. Decides the recursion-structure clause (a necessary "
+              "cycles, loop-as-recursion patterns and iterators re-wrapped in a loop are violations; an entry may rest on a depth guard that is re-verified on every run (the pretty printer's MAX_DEPTH). Decides the recursion-structure clause (a necessary "
               "condition for size-independent stack use), not frame sizes.",
-         note="Known finding: the pretty Turtle/TriG printer's recursion on chains of inlined blank nodes (size-driven). "
+         note=""
               "Trusted: rustc's callee resolution; the audit reasons in rules/tables/recursion.py. Calls through type "
               "parameters are not linked to impls (monomorphic recursion through them is bounded by type nesting). "
               "Third-party crates not analysed.",
@@ -40,7 +40,7 @@ CHECKS.append(
               "discipline that makes the self-borrowing term index sound: no derived/field-wise Clone of the borrower "
               "field, only lookup/entry access to the owner field, key inserted on every path after the borrow is stored, "
               "borrow taken from the entry's own key; ensure_owned only extends a fresh clone under is_owned(); store "
-              "Clone impls field-wise. Decides which code may exist (a necessary condition for memory safety), not a run.",
+              "Clone impls field-wise; no *_unchecked operation in sophia_inmem. Decides which code may exist (a necessary condition for memory safety), not a run.",
          note="Trusted: rustc MIR; std containers; rustc's borrow checker for the E4 compile-fail witnesses. Known finding: the "
               "stores hand out &SimpleTerm<'static> whose clone escapes the store (witness c10_clone_escape, KNOWN_FINDINGS.txt).",
          technique="static: MIR unsafe-site enumeration + who-may-call / must-pass-through / derive rules + compile-fail witnesses"))
@@ -56,9 +56,8 @@ CHECKS.append(
     dict(id="C20", level="other", engine="E1+E2+E3",
          text="Per native Term/TryFromTerm impl: datatype constants, boolean constants, plain `{}` rendering with the "
               "Display language included in the XSD lexical space, Display of f64 only off the is_infinite() edge with "
-              "INF/-INF constants; conversions parse the lexical form only behind whitelisted datatype tests and on the "
-              "literal branch. Decides the construction tables, not std's numeric round trip.",
-         note="Trusted: rustc MIR, std Display/FromStr behaviour as stated in the evidence assumptions.",
+              "INF/-INF constants; conversions parse the lexical form only behind whitelisted datatype tests and on the literal branch, as the Rust type whose value space is the datatype's (xsd:float as f32); the SPARQL engine's own formatting of computed floats/doubles is on the finite edge of a test (one known finding). Decides the construction tables, not std's numeric round trip.",
+         note="Trusted: rustc MIR, std Display/FromStr behaviour as stated in the evidence assumptions. Known finding: SparqlValue::lexical_form writes computed infinities as \"inf\" (pinned by two unit tests of the repository).",
          technique="static: table agreement + edge-dominance over MIR; one DFA inclusion"))
 CHECKS.append(
     dict(id="C03", level="proof", engine="E1+E2+E3",
@@ -77,17 +76,14 @@ CHECKS.append(
               "fail closed); accessor/kind consistency of all 32 Term impls; who-may-construct ArcBnode. Decides the "
               "workspace's own adapter code, not termination or panics inside rio/json-ld.",
          note="Trusted: the pinned back-ends emit tokens of their normative grammars (A8) except where refuted; rustc MIR; regex engines; "
-              "the audited table with one reason per entry. Known findings: three token classes for which A8 was refuted by a "
-              "reproduction (rio blank node labels, rio_xml namespace concatenation, iref IRIs): the unchecked construction panics in "
-              "debug builds.",
+              "the audited table with one reason per entry. Known findings: four unchecked constructions resting on a back-end guarantee that a reproduction refuted (rio blank node labels; rio IRIs: rio_xml namespace concatenation, rio_turtle prefixed-name concatenation, GTriG without a base; the same in datatype position; iref IRIs): they panic in debug builds.",
          technique="static: DFA language inclusion + MIR panic-site enumeration with dominator-based discharge + call-graph reachability"))
 CHECKS.append(
     dict(id="C15", level="other", engine="E1+E3",
          text="Error discipline of the stream machinery decided on every path of every function in scope: no Result of a call "
               "is dropped or left behind on an early return; adapter closures call the downstream callback at most once per "
               "item; SourceError never wraps a callback result and SinkError always does; variant-preserving re-wrapping; "
-              "try_for_each_item loops exactly while Ok(true); swapped-out buffers restored on all paths; item buffers are "
-              "first-in-first-out. Decides the "
+              "try_for_each_item loops exactly while Ok(true); swapped-out buffers restored on all paths; item buffers are first-in-first-out; a writer's io::Error is never re-wrapped; no collector pre-allocates a size hint; filtering adapters do not forward the source's lower bound. Decides the "
               "structural necessary conditions of 'exact prefix, right blame', not the third-party parsers' bookkeeping.",
          note="Trusted: rustc MIR (destination types, resolved callees). A Result handed to another function or stored counts "
               "as delivered.",
@@ -99,10 +95,8 @@ CHECKS.append(
               "NotImplemented with nothing evaluated, FROM NAMED rejected up front; FILTER's keep-iff-truthy chain; binding "
               "consistency checks guard every insertion; positional DISTINCT key; GRAPH ?g pre-binding; SPARQL error semantics in "
               "eval (|| and && evaluate both operands, no evaluation error turned into a value, no evaluator/dataset Result "
-              "swallowed - one known finding: EXISTS, the active graph threaded unchanged); panic audit of the evaluator core. "
-              "Decides these structural clauses, not equality with the algebra's multisets.",
-         note="Trusted: spargebra's algebra; rustc MIR. Function library and numeric tower are listed, not armed. Known finding: "
-              "EXISTS swallows NotImplemented/dataset errors (KNOWN_FINDINGS.txt).",
+              "swallowed - one known finding: EXISTS, the active graph threaded unchanged); panic audit of the evaluator core AND of the function library / numeric tower / value comparison (armed after the hunt round: audited table, checked native arithmetic, directed rounding of decimals, no Option-al value compared, no Err item counted as a solution); four further constructs are reported as known findings (silent not-implemented function stubs, projection not restricting solutions, GRAPH without an existence test, the query's base IRI dropped). Decides these structural clauses, not equality with the algebra's multisets.",
+         note="Trusted: spargebra's algebra; rustc MIR. Assumption A13: queries reach the evaluator only through spargebra's parser (fixed arities of built-in calls). Known findings: EXISTS swallows NotImplemented/dataset errors; R13.18-R13.21 (KNOWN_FINDINGS.txt).",
          technique="static: path/arm template extraction over MIR switch tables + dominator rules + panic audit"))
 CHECKS.append(
     dict(id="C18", level="other", engine="E1+E3",
@@ -117,9 +111,8 @@ CHECKS.append(
          text="The expressibility filter (kind tables of is_subject/is_object/is_bnode read from switch tables, is_jsonld as the "
               "conjunction over s/p/o/g, a quad skipped iff !is_jsonld on every path of process_quads) and a panic audit of the "
               "whole JSON-LD serializer (every unwrap, panic macro, map/vector/string index auto-discharged or audited by exact "
-              "key with its invariant). Decides which quads are omitted and that the engine has no unaudited panic site, not the "
-              "round trip.",
-         note="Trusted: json-ld/json-syntax; the invariants written in the audited table of rules/c12.py.",
+              "key with its invariant). Plus the list bookkeeping clauses: unique-parent reset condition, singleton tests, suppression of a list node only in its parent's graph, and the label-keeping rule (a blank node that names a graph or is a subject in several graphs is never folded into @list). Decides which quads are omitted, these necessary conditions of list folding, and that the engine has no unaudited panic site, not the round trip.",
+         note="Trusted: json-ld/json-syntax; the invariants written in the audited table of rules/c12.py. Known finding: a typed rdf:List node is folded and its rdf:type triple dropped (the W3C algorithm is lossy here).",
          technique="static: switch-table extraction + path enumeration + MIR panic-site audit"))
 CHECKS.append(
     dict(id="C11", level="other", engine="E1+E3",
@@ -135,7 +128,7 @@ CHECKS.append(
          text="Agreement of every comparison code path: TermKind discriminants/derived order; all ~60 PartialEq/Hash/PartialOrd/Ord "
               "impls on Term types delegate to Term::eq/hash/cmp or are audited single-string wrappers; overrides of Term::eq/cmp/"
               "hash are pure forwards (NsTerm::eq: prefix test AND remainder equality); default eq/cmp/hash name all five kinds and "
-              "hash reads only what eq compares, cmp at least what eq compares, no structure-flattening accessor; language tags compared/hashed only through LanguageTag's case-folding impls; "
+              "hash reads only what eq compares, cmp at least what eq compares, no structure-flattening accessor, and the literal arm of cmp looks at tag presence when only one side is tagged; no Term accessor is an unconditional panic; language tags compared/hashed only through LanguageTag's case-folding impls; "
               "conversions rebuild the same kind from the matching accessor; accessor/kind consistency of all Term impls. Decides "
               "the reduction of the laws to component orders, not the laws on values.",
          note="Trusted: std's str/char comparison and hashing; rustc item facts (derive markers, discriminants) and MIR.",
@@ -147,8 +140,7 @@ CHECKS.append(
               "remove for every ordered set, guarded secondary writes, returned flag; every range scan over the set whose key order "
               "starts with the fixed roles with covering bounds; every non-fixed role filtered by its own matcher on its own "
               "position; results re-ordered to (g,[s,p,o]); unknown constants touch no set; matching-iterator caches; constant() "
-              "contract of all matcher impls; bulk-operation counters; index-full reported before any mutation; index sets "
-              "written only by insert/remove. Decides these structural necessary conditions for all "
+              "contract of all matcher impls; bulk-operation counters; index-full reported before any mutation; index sets written only by insert/remove; range bounds are ZERO/MAX at every free position (no reliance on what a TermIndex issues); the flags of the Vec/HashSet/BTreeSet-backed collections are the container's own or true exactly after a change, and list-backed removal covers every occurrence. Decides these structural necessary conditions for all "
               "pattern shapes and index widths, not BTreeSet/Term::eq themselves nor result equality across implementations.",
          note="Trusted: rustc MIR; the role-preserving callee list and iterator summaries in rules/roles.py; BTreeSet/HashMap.",
          technique="static: abstract interpretation (role propagation) over MIR + dominator / who-may-write rules + compile-fail witness"))
@@ -157,8 +149,7 @@ CHECKS.append(
          text="The blank-blind comparison never reaches the label-sensitive Term::eq/cmp when both sides are quoted triples or both "
               "blank nodes (reachability under the kind assumption, over every comparison impl of IsoTerm and the helpers they "
               "call) and recurses component-wise; eq_gn's decision table; early Ok(false) exits, same sort on both sides, helpers "
-              "applied to both arguments, Source/Sink blame, verdict = equality of colour histograms; colour = XOR over an ordered "
-              "set with no order-dependent step; atomic ground terms compared as whole terms; the colour hash recurses into every "
+              "applied to both arguments, Source/Sink blame, verdict = equality of colour histograms; colour = a commutative, non-cancelling combination (wrapping sum, NOT XOR) over an ordered set with no order-dependent step; the refinement loop has a counter-bounded exit; duplicates yielded by a container are removed with an exact comparison first; atomic ground terms compared as whole terms; the colour hash recurses into every "
               "quoted triple; IsoTerm quads never de-duplicated. Decides these structural clauses, not hash-collision freedom or "
               "completeness of the refinement.",
          note="Trusted: rustc MIR; std sort/hash.",
@@ -168,27 +159,26 @@ CHECKS.append(
          text="Order/label independence by construction: every place where order could leak is behind a sort of the very data "
               "consumed (first-degree lines, hash-path list, final quads; the final comparator over fixed-length position "
               "sequences), blank nodes enter first-degree hashes only as the two placeholders, first-degree hashing covers s,p,o,g, "
-              "no hash-ordered container exists in the crate, the returned identifier map is the one applied. Decides these "
+              "no hash-ordered container exists in the crate, the returned identifier map is the one applied; the two places where equal candidates are ordered/chosen are reported when the key is the hash/path alone (two known findings). Decides these "
               "necessary conditions of the invariant, not its completeness (the `only if`).",
-         note="Trusted: BTreeMap ordering, std sorts, sha2.",
+         note="Trusted: BTreeMap ordering, std sorts, sha2. Known findings: with blank graph names equal hashes do not imply interchangeable nodes; ties are broken by label order (step 5.3) and quad order (step 5.4.6): RDFC-1.0 itself is label-dependent on such inputs.",
          technique="static: must-pass-through (dominator) rules + constant/flow rules over MIR"))
 CHECKS.append(
     dict(id="C06", level="other", engine="E1+E3",
          text="The canonical N-Quads escaping table read from _cnq::nq's character switch and format template (upper-case \\uXXXX), "
               "the safeguards' dataflow (compared only, failing with ToxicGraph), unsupported input rejected before any quad is "
-              "recorded with the closed set of error variants, every related blank node occurrence appended in Hash N-Degree Quads, "
-              "and a panic audit of the canonicalisation functions. Decides these "
+              "recorded with the closed set of error variants, every related blank node occurrence appended in Hash N-Degree Quads, one reference per blank node and quad in step 2.1, what the two safeguards are compared with (two known findings), and a panic audit of the canonicalisation functions. Decides these "
               "clauses, not equality with the W3C algorithm's hashes/paths.",
-         note="Trusted: the RDF 1.2 canonical N-Quads escape table in rules/c06.py; sha2; audited panic table.",
+         note="Trusted: the RDF 1.2 canonical N-Quads escape table in rules/c06.py (incl. U+FFFE/U+FFFF); sha2; audited panic table. Known findings: the permutation limit counts occurrences, not nodes; the recursion bound grows with the input (stack overflow on long chains).",
          technique="static: switch-table/format-template extraction + taint of safeguard reads + dominator rules + panic audit"))
 CHECKS.append(
     dict(id="C14", level="other", engine="E1+E3",
          text="Comparator structure of ORDER BY: the per-key decision table of cmp_bindings_with (unbound first, DESC reverses only "
               "this key, ties broken by the remaining keys), the total-by-construction discipline (a partial comparison falling back "
               "to a different order is reported — one known finding on the unchanged tree), the datatype->parser table that gives "
-              "derived numeric types their value, operand order in the numeric coercion, and a panic audit of the comparator. Decides "
+              "derived numeric types their value, (incl. the four lexical forms of xsd:boolean), operand order and promotion table of the numeric coercion, whether ORDER BY treats pairs of numbers itself (known finding: it hands them to the lossy-promoting `<`), and a panic audit of the comparator. Decides "
               "these structural clauses, not the numeric values compared.",
-         note="Trusted: rustc MIR; std sort. Known finding: sparql_order_by's partial order with Term::cmp fallback (KNOWN_FINDINGS.txt).",
+         note="Trusted: rustc MIR; std sort. Known findings: sparql_order_by's partial order with Term::cmp fallback; numbers ordered by the promoting `<` (KNOWN_FINDINGS.txt).",
          technique="static: decision-table extraction over MIR paths + flow rule on Option<Ordering> fallbacks + table agreement"))
 NOT_APPLICABLE = [
     dict(property_id="C17", reason="relativise/resolve inverse is an equation between runtime-computed strings "
